@@ -9,7 +9,11 @@
 //	isex    <schemaMask> <answers> <tree…>                rpn.ConvertToRPNExpr + NewSKCondition + SKConditionImpl.IsExist over a scripted SKBaseReader
 //	bloom   <kind> <split> <rpf> <minRows> <ranges> <nIdx> <segments> <cond…>
 //	                                                      real skip-index writer (index.NewIndexWriters + CreateAttachIndex) on generated
-//	                                                      string columns, real CreateSKFileReaders + ReInit + Scan
+//	                                                      string columns, real CreateSKFileReaders + ReInit + Scan; one bloom-filter (1..3
+//	                                                      index columns) or full-text index over the columns 0..nIdx-1, plus a column x
+//	bloomx  <split> <rpf> <minRows> <ranges> <ncols> <relation> <segments> <cond…>
+//	                                                      the same through an index relation with several indexes side by side
+//	                                                      (bf:<cols>;ft:<cols>;set:<col>;tc:…), index lists in any order, atoms on any column
 //
 // The spec diff (a fragment holding a row that satisfies the condition must survive) is computed
 // here by brute force with an independent row matcher; every miss gets a class.
@@ -128,8 +132,8 @@ func (s *scriptedSK) MayBeInFragment(id uint32) (bool, error) {
 	return s.ans[id] == '1', nil
 }
 func (s *scriptedSK) ReInit(file interface{}) error { return nil }
-func (s *scriptedSK) StartSpan(span *tracing.Span) {}
-func (s *scriptedSK) Close() error                 { return nil }
+func (s *scriptedSK) StartSpan(span *tracing.Span)  {}
+func (s *scriptedSK) Close() error                  { return nil }
 
 type mockTssp struct{ path string }
 
@@ -633,10 +637,18 @@ type bcond struct {
 	paren bool
 }
 
+// idxDef is one index of the relation: its type (bf | ft | set | tc) and its index list.
+type idxDef struct {
+	kind string
+	cols []int
+}
+
 type bcase struct {
-	kind    string // bf | ft
+	kind    string // bf | ft : one index over the columns 0..nIdx-1 plus the column x; x : relation rel over ncols columns
 	split   string // c | e
 	nIdx    int
+	ncols   int      // kind x: number of (string) columns of the record
+	rel     []idxDef // kind x
 	rows    [][]sval
 	segEnds []int
 	rpf     int
@@ -658,10 +670,79 @@ func (b *bcase) fieldName(f int) string {
 	switch {
 	case f < 0:
 		return "__log___"
-	case f == b.nIdx:
+	case f == b.nIdx && b.kind != "x":
 		return "x"
 	}
 	return fmt.Sprintf("f%d", f)
+}
+
+// relDefs: the index relation of the case.
+func (b *bcase) relDefs() []idxDef {
+	if b.kind == "x" {
+		return b.rel
+	}
+	var cols []int
+	for f := 0; f < b.nIdx; f++ {
+		cols = append(cols, f)
+	}
+	return []idxDef{{kind: b.kind, cols: cols}}
+}
+
+// numCols: string columns of the record.
+func (b *bcase) numCols() int {
+	if b.kind == "x" {
+		return b.ncols
+	}
+	return b.nIdx + 1
+}
+
+func (b *bcase) colsOf(kind string) []int {
+	for _, d := range b.relDefs() {
+		if d.kind == kind {
+			return d.cols
+		}
+	}
+	return nil
+}
+
+func hasInt(xs []int, x int) bool {
+	for _, y := range xs {
+		if y == x {
+			return true
+		}
+	}
+	return false
+}
+
+// atomsInOrder: the atoms left to right = the order of their VarRefs in the RPN.
+func (b *bcase) atomsInOrder() []*bcond {
+	var out []*bcond
+	var rec func(c *bcond)
+	rec = func(c *bcond) {
+		if c.kind == 'A' {
+			out = append(out, c)
+			return
+		}
+		rec(c.l)
+		rec(c.r)
+	}
+	rec(b.cond)
+	return out
+}
+
+// schemaOf: the fields getSKInfoByExpr collects for the index of type kind (nil: no reader).
+func (b *bcase) schemaOf(kind string) []int {
+	cols := b.colsOf(kind)
+	var fields []int
+	for _, a := range b.atomsInOrder() {
+		switch {
+		case a.field < 0 && kind == "ft" && len(cols) > 0:
+			fields = append([]int(nil), cols...)
+		case a.field >= 0 && hasInt(cols, a.field):
+			fields = append(fields, a.field)
+		}
+	}
+	return fields
 }
 
 func (c *bcond) text(b *bcase) string {
@@ -669,7 +750,7 @@ func (c *bcond) text(b *bcase) string {
 		f := fmt.Sprint(c.field)
 		if c.field < 0 {
 			f = "L"
-		} else if c.field == b.nIdx {
+		} else if c.field == b.nIdx && b.kind != "x" {
 			f = "x"
 		}
 		return fmt.Sprintf("A %s %s %s", f, c.op, hexs(c.v))
@@ -764,7 +845,7 @@ func (c *bcond) holds(b *bcase, row []sval) bool {
 	switch c.kind {
 	case 'A':
 		if c.field < 0 { // full text: OR over the full-text columns
-			for f := 0; f < b.nIdx; f++ {
+			for _, f := range b.colsOf("ft") {
 				if atomHolds("mp", row[f], c.v) {
 					return true
 				}
@@ -869,25 +950,22 @@ func hasHigh(s string) bool {
 }
 
 // classify one missed fragment: look for an atom the matching row satisfies whose index
-// lookups cannot all have been written for that row.
+// lookups cannot all have been written for that row, in a filter a reader really consults:
+// the plain bloom reader consults the filter of its served column (the first index column of
+// the condition) for match-phrase atoms on that column only; the full-text reader consults its
+// one filter (all string columns of the row) for every atom of its schema and for __log___.
+// A pruned block none of this explains gets the empty class = a violation of the property.
 func (b *bcase) classify(row []sval) string {
 	classes := map[string]bool{}
-	b.cond.walk(func(a *bcond) {
-		if a.kind != 'A' || a.field == b.nIdx {
-			return
-		}
-		if b.kind == "bf" && (a.field != 0 || a.op != "mp") {
-			return
-		}
-		var rowVals []sval
-		if a.field < 0 || b.kind == "ft" {
-			rowVals = row // the full-text filter holds every string column of the row
-		} else {
-			rowVals = []sval{row[a.field]}
-		}
+	bfSchema, ftSchema := b.schemaOf("bf"), b.schemaOf("ft")
+	if len(b.schemaOf("set")) > 0 {
+		classes["set_index_unimplemented_prunes_all"] = true
+	}
+	ftCols := b.colsOf("ft")
+	explain := func(a *bcond, reader string, rowVals []sval) {
 		sat := false
 		if a.field < 0 {
-			for f := 0; f < b.nIdx; f++ {
+			for _, f := range ftCols {
 				sat = sat || atomHolds("mp", row[f], a.v)
 			}
 		} else {
@@ -898,7 +976,7 @@ func (b *bcase) classify(row []sval) string {
 		}
 		look := readerLookups(a.v)
 		if len(look) == 0 {
-			if b.kind == "bf" {
+			if reader == "bf" {
 				classes["bloom_phrase_without_token_prunes_all"] = true
 			}
 			return
@@ -923,7 +1001,7 @@ func (b *bcase) classify(row []sval) string {
 			return
 		}
 		switch {
-		case b.kind == "ft" && a.field >= 0 && a.op != "mp" && a.op != "eq":
+		case reader == "ft" && a.field >= 0 && a.op != "mp" && a.op != "eq":
 			classes["bloom_fulltext_operator_ignored"] = true
 		case b.split == "e":
 			classes["bloom_writer_without_split_tokens"] = true
@@ -934,8 +1012,19 @@ func (b *bcase) classify(row []sval) string {
 		default:
 			classes["bloom_lookup_not_written_unexplained"] = true
 		}
+	}
+	b.cond.walk(func(a *bcond) {
+		if a.kind != 'A' {
+			return
+		}
+		if len(bfSchema) > 0 && a.field == bfSchema[0] && a.op == "mp" {
+			explain(a, "bf", []sval{row[a.field]})
+		}
+		if len(ftSchema) > 0 && (a.field < 0 || hasInt(ftSchema, a.field)) {
+			explain(a, "ft", row) // the full-text filter holds every string column of the row
+		}
 	})
-	for _, k := range []string{"bloom_lookup_not_written_unexplained", "bloom_fulltext_operator_ignored", "bloom_writer_without_split_tokens",
+	for _, k := range []string{"bloom_lookup_not_written_unexplained", "set_index_unimplemented_prunes_all", "bloom_fulltext_operator_ignored", "bloom_writer_without_split_tokens",
 		"bloom_phrase_without_token_prunes_all", "bloom_multibyte_tokenization_mismatch", "bloom_ngram_lookup_never_written"} {
 		if classes[k] {
 			if k == "bloom_lookup_not_written_unexplained" {
@@ -1053,6 +1142,15 @@ func genBCond(r *hx.Rng, b *bcase, depth int) *bcond {
 		a := &bcond{kind: 'A'}
 		x := r.Intn(100)
 		switch {
+		case b.kind == "x":
+			// any column of the record (indexed by one, several or no index), or __log___
+			a.field = r.Intn(b.ncols)
+			if x < 12 {
+				a.field = -1 // with no full-text index: CreateSKFileReaders fails ("empty fields")
+				if len(b.colsOf("ft")) == 0 && x >= 2 {
+					a.field = r.Intn(b.ncols)
+				}
+			}
 		case x < 70:
 			a.field = r.Intn(b.nIdx)
 		case x < 85:
@@ -1065,6 +1163,9 @@ func genBCond(r *hx.Rng, b *bcase, depth int) *bcond {
 			}
 		}
 		a.op = []string{"mp", "mp", "mp", "mp", "eq", "eq", "neq", "lt", "gt", "lte", "gte"}[r.Intn(11)]
+		if b.kind != "ft" && r.Chance(45) { // the plain reader only ever looks match-phrase atoms up
+			a.op = "mp"
+		}
 		if a.field < 0 {
 			a.op = "mp"
 		}
@@ -1074,6 +1175,11 @@ func genBCond(r *hx.Rng, b *bcase, depth int) *bcond {
 			if x.ok && validUTF8Prefixes(x.s) {
 				a.v = x.s
 			}
+		}
+		if b.kind == "x" && !validUTF8Prefixes(a.v) {
+			// several readers: a phrase that panics in the query tokenizer would make the answer
+			// depend on the (random) order in which Go iterates skInfoMap
+			a.v = "hello"
 		}
 		return a
 	}
@@ -1085,20 +1191,55 @@ func genBCond(r *hx.Rng, b *bcase, depth int) *bcond {
 }
 
 func genBCase(r *hx.Rng) *bcase {
-	b := &bcase{kind: "bf", split: "c", nIdx: 1}
-	if r.Chance(40) {
+	b := &bcase{kind: "bf", split: "c", nIdx: []int{1, 1, 2, 2, 3}[r.Intn(5)]}
+	switch x := r.Intn(100); {
+	case x < 30:
 		b.kind = "ft"
 		b.nIdx = 1 + r.Intn(2)
-	}
-	if r.Chance(15) {
-		b.split = "e"
+	case x < 55:
+		// an index relation with several indexes side by side over a record of 2..4 string columns
+		b.kind = "x"
+		b.ncols = 2 + r.Intn(3)
+		b.nIdx = b.ncols
+		pick := func(max int) []int { // a non-empty index list, in any order
+			perm := make([]int, b.ncols)
+			for i := range perm {
+				perm[i] = i
+			}
+			for i := len(perm) - 1; i > 0; i-- {
+				j := r.Intn(i + 1)
+				perm[i], perm[j] = perm[j], perm[i]
+			}
+			k := 1 + r.Intn(max)
+			if k > b.ncols {
+				k = b.ncols
+			}
+			return perm[:k]
+		}
+		if r.Chance(8) {
+			b.rel = append(b.rel, idxDef{"tc", []int{0}})
+		}
+		if r.Chance(85) {
+			b.rel = append(b.rel, idxDef{"bf", pick(3)})
+		}
+		if r.Chance(50) || len(b.rel) == 0 {
+			d := idxDef{"ft", pick(2)}
+			if r.Bool() { // either order in the relation
+				b.rel = append([]idxDef{d}, b.rel...)
+			} else {
+				b.rel = append(b.rel, d)
+			}
+		}
+		if r.Chance(4) {
+			b.rel = append(b.rel, idxDef{"set", pick(1)})
+		}
 	}
 	b.rpf = 1 + r.Intn(4)
 	nseg := 1 + r.Intn(5)
 	n := nseg*b.rpf - r.Intn(b.rpf) // short last block
 	nullPct := []int{0, 0, 10, 30}[r.Intn(4)]
 	for i := 0; i < n; i++ {
-		row := make([]sval, b.nIdx+1)
+		row := make([]sval, b.numCols())
 		for f := range row {
 			if r.Chance(nullPct) {
 				continue
@@ -1116,7 +1257,11 @@ func genBCase(r *hx.Rng) *bcase {
 	}
 	b.minRows = []int{0, 0, b.rpf * 2, 1}[r.Intn(4)]
 	b.ranges = genRanges(r, nseg, 0)
-	b.cond = genBCond(r, b, r.Intn(3))
+	depth := r.Intn(3)
+	if (b.kind == "bf" && b.nIdx > 1) || b.kind == "x" {
+		depth = 1 + r.Intn(2) // several atoms: on the served column, on another index column, on both
+	}
+	b.cond = genBCond(r, b, depth)
 	return b
 }
 
@@ -1139,29 +1284,42 @@ func (b *bcase) opLine() string {
 		segs = append(segs, strings.Join(rows, ","))
 		start = e
 	}
+	if b.kind == "x" {
+		var defs []string
+		for _, d := range b.rel {
+			var cs []string
+			for _, c := range d.cols {
+				cs = append(cs, fmt.Sprint(c))
+			}
+			defs = append(defs, d.kind+":"+strings.Join(cs, ","))
+		}
+		return fmt.Sprintf("bloomx %s %d %d %s %d %s %s %s", b.split, b.rpf, b.minRows, rangesOp(b.ranges), b.ncols, strings.Join(defs, ";"), strings.Join(segs, "|"), b.cond.text(b))
+	}
 	return fmt.Sprintf("bloom %s %s %d %d %s %d %s %s", b.kind, b.split, b.rpf, b.minRows, rangesOp(b.ranges), b.nIdx, strings.Join(segs, "|"), b.cond.text(b))
 }
 
+var idxOid = map[string]indextype.IndexType{"bf": indextype.BloomFilter, "ft": indextype.BloomFilterFullText, "set": indextype.Set, "tc": indextype.TimeCluster}
+
 func (b *bcase) relation() *influxql.IndexRelation {
 	rel := &influxql.IndexRelation{}
-	var ilist []string
-	for f := 0; f < b.nIdx; f++ {
-		ilist = append(ilist, fmt.Sprintf("f%d", f))
-	}
-	if b.kind == "bf" {
-		rel.Oids = []uint32{uint32(indextype.BloomFilter)}
-		rel.IndexNames = []string{indextype.BloomFilterIndex}
-	} else {
-		rel.Oids = []uint32{uint32(indextype.BloomFilterFullText)}
-		rel.IndexNames = []string{indextype.BloomFilterFullTextIndex}
-	}
-	rel.IndexList = []*influxql.IndexList{{IList: ilist}}
-	if b.split == "c" {
-		// as the log-store measurement creation fills it in
-		rel.IndexOptions = []*influxql.IndexOptions{{Options: []*influxql.IndexOption{{Tokens: tokenizer.CONTENT_SPLITTER, TokensTable: tokenizer.CONTENT_SPLIT_TABLE, Tokenizers: "standard"}}}}
-	} else {
-		// as StatementExecutor.getIndexRelation fills it in for CREATE MEASUREMENT … INDEXTYPE bloomfilter
-		rel.IndexOptions = []*influxql.IndexOptions{{}}
+	for _, d := range b.relDefs() {
+		var ilist []string
+		for _, f := range d.cols {
+			ilist = append(ilist, fmt.Sprintf("f%d", f))
+		}
+		if d.kind == "tc" {
+			ilist = []string{"time"}
+		}
+		rel.Oids = append(rel.Oids, uint32(idxOid[d.kind]))
+		rel.IndexNames = append(rel.IndexNames, indextype.IndexTypeToName[idxOid[d.kind]])
+		rel.IndexList = append(rel.IndexList, &influxql.IndexList{IList: ilist})
+		if b.split == "c" {
+			// as the log-store measurement creation fills it in
+			rel.IndexOptions = append(rel.IndexOptions, &influxql.IndexOptions{Options: []*influxql.IndexOption{{Tokens: tokenizer.CONTENT_SPLITTER, TokensTable: tokenizer.CONTENT_SPLIT_TABLE, Tokenizers: "standard"}}})
+		} else {
+			// as StatementExecutor.getIndexRelation fills it in for CREATE MEASUREMENT … INDEXTYPE bloomfilter
+			rel.IndexOptions = append(rel.IndexOptions, &influxql.IndexOptions{})
+		}
 	}
 	return rel
 }
@@ -1186,7 +1344,7 @@ func runBloom(c *hx.Ctx, r *hx.Rng, work string) error {
 	}()
 	// record: string columns f0.. x
 	var schema record.Schemas
-	for f := 0; f <= b.nIdx; f++ {
+	for f := 0; f < b.numCols(); f++ {
 		schema = append(schema, record.Field{Name: b.fieldName(f), Type: influx.Field_Type_String})
 	}
 	rec := record.NewRecord(schema, false)
@@ -1219,7 +1377,7 @@ func runBloom(c *hx.Ctx, r *hx.Rng, work string) error {
 				os.Rename(filepath.Join(dir, e.Name()), filepath.Join(dir, strings.TrimSuffix(e.Name(), ".init")))
 			}
 		}
-		if b.kind == "ft" { // attached full-text file name the TSSP-file reader asks for
+		if len(b.colsOf("ft")) > 0 { // attached full-text file name the TSSP-file reader asks for
 			os.Rename(filepath.Join(dir, dataFileBase+".fullText.bf"), filepath.Join(dir, dataFileBase+".bloomfilter_fullText.bf"))
 		}
 		mst := &influxql.Measurement{Name: ms, IndexRelation: rel}
@@ -1249,6 +1407,19 @@ func runBloom(c *hx.Ctx, r *hx.Rng, work string) error {
 	}
 	line := c.Emit(op, res)
 	c.Count("skip:bloom-" + b.kind + "-split-" + b.split)
+	if bs := b.schemaOf("bf"); len(bs) > 0 {
+		distinct := map[int]bool{}
+		for _, f := range bs {
+			distinct[f] = true
+		}
+		c.Count(fmt.Sprintf("bloom:bf-index-cols-%d-in-condition-%d", len(b.colsOf("bf")), len(distinct)))
+		if bs[0] != b.colsOf("bf")[0] {
+			c.Count("bloom:bf-served-column-not-first-of-index-list")
+		}
+	}
+	if nReaders > 1 {
+		c.Count(fmt.Sprintf("bloom:readers-%d", nReaders))
+	}
 	if nReaders == 0 {
 		c.Count("bloom:no-reader")
 	}
@@ -1306,7 +1477,7 @@ func runBloom(c *hx.Ctx, r *hx.Rng, work string) error {
 	}
 	sort.Strings(cls)
 	for _, k := range cls {
-		c.Violation(line, k, fmt.Sprintf("fragments %v hold a row satisfying the condition and were pruned by the %s index; %s => %s", byClass[k], b.kind, op, res))
+		c.Violation(line, k, fmt.Sprintf("fragments %v hold a row satisfying the condition and were pruned by the skip index readers (%s; bloom reader schema %v, full-text reader schema %v); %s => %s", byClass[k], b.kind, b.schemaOf("bf"), b.schemaOf("ft"), op, res))
 	}
 	// cross-check the independent phrase matcher against lib/tokenizer's finder
 	tf := tokenizer.NewSimpleTokenFinder(tokenizer.CONTENT_SPLIT_TABLE)
@@ -1355,12 +1526,12 @@ func runPMatch(c *hx.Ctx, r *hx.Rng) {
 // ---------------------------------------------------------------------------------------------
 
 func runSkip(c *hx.Ctx) error {
-	c.Stats.Rule += " || skip indexes: SKIndexReaderImpl.Scan over scripted readers (answers 1/0/error, ascending and malformed ranges, any seek threshold) and over the real set reader; SKConditionImpl (ConvertToRPNExpr + convertToRPNElem + IsExist) over scripted atom answers on AND/OR trees incl. malformed ones; MinMaxIndexReader with a test ReadFunc; bloom filter / full-text bloom filter written by the real index writers from generated string columns (nulls, empty, separators, non-ASCII, arbitrary bytes, long tokens, short last block) and read back by the real readers under =,!=,<,>,match-phrase,AND,OR conditions; non-trivial = some fragment dropped and some kept"
+	c.Stats.Rule += " || skip indexes: SKIndexReaderImpl.Scan over scripted readers (answers 1/0/error, ascending and malformed ranges, any seek threshold) and over the real set reader; SKConditionImpl (ConvertToRPNExpr + convertToRPNElem + IsExist) over scripted atom answers on AND/OR trees incl. malformed ones; MinMaxIndexReader with a test ReadFunc; bloom filter (index list of 1..3 columns) / full-text bloom filter / relations with both side by side (index lists in any order, set and time-cluster entries) written by the real index writers from generated string columns (nulls, empty, separators, non-ASCII, arbitrary bytes, long tokens, short last block) and read back by the readers the real CreateSKFileReaders builds (ReInit + Scan per reader) under =,!=,<,>,match-phrase,AND,OR conditions with atoms on the served column, on other index columns, on unindexed columns and on __log___; non-trivial = some fragment dropped and some kept"
 	n := c.Budget(8000, 600000)
 	r := hx.NewRng(c.Seed ^ 0x5c20511b)
-	nScan, nSet, nIsx, nMmx, nBloom := n/4, n/40, n/5, n/40, n/16
-	if nBloom > 12000 {
-		nBloom = 12000
+	nScan, nSet, nIsx, nMmx, nBloom := n/4, n/40, n/5, n/40, n/8
+	if nBloom > 24000 {
+		nBloom = 24000
 	}
 	for i := 0; i < nScan; i++ {
 		runSkipScan(c, r)
